@@ -879,6 +879,37 @@ func runMemberMutations(run *hx.Run, r *hx.RNG, b *base) {
 	}
 }
 
+// ---- raw byte strings around a valid archive: garbage before / after, archives glued together
+func runRaw(run *hx.Run, r *hx.RNG, b *base) {
+	zeros := func(n int) []byte { return make([]byte, n) }
+	cat := func(xs ...[]byte) []byte { return bytes.Join(xs, nil) }
+	noTrailer := b.tarB[:len(b.tarB)-1024]
+	cases := []struct {
+		kind string
+		must bool
+		b    []byte
+	}{
+		{"raw-empty-input", true, nil},
+		{"raw-zero-block", true, zeros(512)},
+		{"raw-two-zero-blocks", true, zeros(1024)},
+		{"raw-three-zero-blocks", true, zeros(1536)},
+		{"raw-garbage", true, genState(r, 2000)},
+		{"raw-garbage-after-trailer", false, cat(b.tarB, genState(r, 700))},
+		{"raw-archive-twice", false, cat(b.tarB, b.tarB)},
+		{"raw-archive-twice-without-first-trailer", false, cat(noTrailer, b.tarB)},
+		{"raw-one-zero-block-then-archive", true, cat(zeros(512), b.tarB)},
+		{"raw-garbage-block-then-archive", true, cat(genState(r, 512), b.tarB)},
+		{"raw-one-trailer-block", false, b.tarB[:len(b.tarB)-512]},
+		{"raw-three-trailer-blocks", false, cat(b.tarB, zeros(512))},
+		{"raw-shifted-by-one", true, cat([]byte{0}, b.tarB)},
+	}
+	for _, c := range cases {
+		res, _, op := emitRead(run, c.b)
+		checkDamaged(run, b, c.kind, c.must, res, op)
+		run.Case(b.tag+"/"+c.kind, true)
+	}
+}
+
 // ---- adversarial archives: the attacker recomputes SHA256SUMS
 
 var jsonPool = []string{`null`, `{}`, `{"Index":7}`, `{"ID":"x","Size":3}`, `[]`, `{`, ``, `{"Index":1}{"Index":2}`, `{"Index":"notanumber"}`,
@@ -1342,9 +1373,9 @@ func main() {
 		r := run.RNG.Fork(uint64(1000 + i))
 		bases = append(bases, mkBase(run, genMeta(r, n), genState(r, n), fmt.Sprintf("size%d", n)))
 	}
-	for i := 0; i < run.Scale(40, 150); i++ {
+	for i := 0; i < run.Scale(40, 100); i++ {
 		r := run.RNG.Fork(uint64(2000 + i))
-		n := r.Intn(run.Scale(20000, 60000))
+		n := r.Intn(run.Scale(20000, 40000))
 		mkBase(run, genMeta(r, n), genState(r, n), "random-size")
 	}
 	// metadata.Size smaller than the reader: exactly Size bytes are archived
@@ -1393,6 +1424,9 @@ func main() {
 		runMemberMutations(run, run.RNG.Fork(uint64(4000+i)), b)
 	}
 	runLongLines(run, bases[3])
+	for i, b := range bases {
+		runRaw(run, run.RNG.Fork(uint64(4500+i)), b)
+	}
 
 	phase("3-members")
 	// 4. adversarial archives
@@ -1410,7 +1444,7 @@ func main() {
 		case n <= 2 || n == 513:
 			runGz(run, r, b, gz, 1, 1)
 		default:
-			runGz(run, r, b, gz, run.Scale(13, 2), run.Scale(5, 1))
+			runGz(run, r, b, gz, run.Scale(13, 5), run.Scale(5, 2))
 		}
 	}
 
@@ -1420,5 +1454,10 @@ func main() {
 
 	phase("6-restore")
 	run.Extra["bases"] = len(bases)
+	// observations outside the property's verdict (reported, not violations)
+	if left, err := os.ReadDir(tmp); err == nil {
+		run.Extra["observation:temp-files-left-behind-by-failed-snapshot.Read"] = len(left)
+	}
+	run.Extra["observation:absent-empty-member"] = "an archive whose (empty) state.bin member was removed is accepted with identical extraction: read hashes an absent member as the empty string (tag observed:empty-state.bin-member-removed; Props/C20.lean missing_member_counterexample)"
 	run.Finish()
 }
